@@ -7,7 +7,7 @@ package main
 //   signalErrsBranchWaits   in `case err := <-errs:` of the nested select a call of (*engine.Engine).Wait
 //                           occurs (anywhere, including a goroutine literal) before the first log.Fatal
 //                           statement of that clause
-//   signalSelectCases       the communication clauses of the nested select, as source text
+//   signalSelectCases       the communication clauses of the nested select, by what they receive: sigs / errs / timeout / done
 //   errsFirstBranchWaits    in the outer `case err := <-errs:` (engine failed first) pandora.Wait() precedes log.Fatal
 // The reading is purely structural (statement order inside the clause); what the process really does is
 // observed by the harness (kind=proc).
@@ -46,13 +46,88 @@ func cliIsEngineWait(t *tr, c *ast.CallExpr) bool {
 	return strings.HasSuffix(f.FullName(), "core/engine.Engine).Wait")
 }
 
+// cliIsLogFatal: a statement that is a call of (*zap.Logger).Fatal (whatever the logger variable is called)
 func cliIsLogFatal(t *tr, st ast.Stmt) bool {
 	es, ok := st.(*ast.ExprStmt)
 	if !ok {
 		return false
 	}
 	c, ok := es.X.(*ast.CallExpr)
-	return ok && phoutSrc(t, c.Fun) == "log.Fatal"
+	if !ok {
+		return false
+	}
+	sel, ok := c.Fun.(*ast.SelectorExpr)
+	if !ok || sel.Sel.Name != "Fatal" {
+		return false
+	}
+	if s, ok := t.pkg.TypesInfo.Selections[sel]; ok {
+		if f, ok := s.Obj().(*types.Func); ok {
+			return strings.HasSuffix(f.FullName(), "zap.Logger).Fatal")
+		}
+	}
+	return false
+}
+
+// cliIsShutdownCall: a statement that calls the function's `func()` parameter (gracefulShutdown)
+func cliIsShutdownCall(t *tr, fd *ast.FuncDecl, st ast.Stmt) bool {
+	es, ok := st.(*ast.ExprStmt)
+	if !ok {
+		return false
+	}
+	c, ok := es.X.(*ast.CallExpr)
+	if !ok || len(c.Args) != 0 {
+		return false
+	}
+	id, ok := c.Fun.(*ast.Ident)
+	if !ok {
+		return false
+	}
+	obj := t.pkg.TypesInfo.Uses[id]
+	for _, f := range fd.Type.Params.List {
+		if _, isFunc := f.Type.(*ast.FuncType); !isFunc {
+			continue
+		}
+		for _, n := range f.Names {
+			if t.pkg.TypesInfo.Defs[n] == obj && obj != nil {
+				return true
+			}
+		}
+	}
+	return false
+}
+
+// cliCommKind: what a communication clause receives from, by the channel's element type:
+// "sigs" (os.Signal), "errs" (error), "timeout" (time.Time), "done" (anything else), "default"
+func cliCommKind(t *tr, cc *ast.CommClause) string {
+	if cc.Comm == nil {
+		return "default"
+	}
+	var recv ast.Expr
+	switch x := cc.Comm.(type) {
+	case *ast.ExprStmt:
+		recv = x.X
+	case *ast.AssignStmt:
+		if len(x.Rhs) == 1 {
+			recv = x.Rhs[0]
+		}
+	}
+	u, ok := recv.(*ast.UnaryExpr)
+	if !ok {
+		return "other"
+	}
+	ch, ok := t.pkg.TypesInfo.TypeOf(u.X).Underlying().(*types.Chan)
+	if !ok {
+		return "other"
+	}
+	switch ch.Elem().String() {
+	case "os.Signal":
+		return "sigs"
+	case "error":
+		return "errs"
+	case "time.Time":
+		return "timeout"
+	}
+	return "done"
 }
 
 // cliWaitsBeforeFatal: scanning the clause body in order, is Engine.Wait called before the first
@@ -104,10 +179,10 @@ func cliExtra(t *tr) string {
 	var sigClause, errClause *ast.CommClause
 	for _, c := range outer.Body.List {
 		cc := c.(*ast.CommClause)
-		switch cliCommText(t, cc) {
-		case "sig := <-sigs":
+		switch cliCommKind(t, cc) {
+		case "sigs":
 			sigClause = cc
-		case "err := <-errs":
+		case "errs":
 			errClause = cc
 		default:
 			t.fail(cc, "unexpected case %q of the outer select", cliCommText(t, cc))
@@ -134,7 +209,7 @@ func cliExtra(t *tr) string {
 				n++
 				has := false
 				for _, bs := range cc.Body {
-					if phoutSrc(t, bs) == "gracefulShutdown()" {
+					if cliIsShutdownCall(t, fd, bs) {
 						has = true
 					}
 				}
@@ -160,16 +235,16 @@ func cliExtra(t *tr) string {
 	waits := false
 	for _, c := range inner.Body.List {
 		cc := c.(*ast.CommClause)
-		txt := cliCommText(t, cc)
+		txt := cliCommKind(t, cc)
 		cases = append(cases, txt)
-		if txt == "err := <-errs" {
+		if txt == "errs" {
 			waits = cliWaitsBeforeFatal(t, cc.Body)
 		}
 	}
 	// outer errs clause: switch err { case nil: … case err: … pandora.Wait() … log.Fatal }
 	errWaits := false
 	ast.Inspect(errClause, func(n ast.Node) bool {
-		if cc, ok := n.(*ast.CaseClause); ok && len(cc.List) == 1 && phoutSrc(t, cc.List[0]) == "err" {
+		if cc, ok := n.(*ast.CaseClause); ok && len(cc.List) == 1 && phoutSrc(t, cc.List[0]) != "nil" {
 			// Wait() as a top-level statement before the final log.Fatal
 			for _, st := range cc.Body {
 				if cliIsLogFatal(t, st) {
@@ -287,7 +362,7 @@ func cliSignals(t *tr, b *strings.Builder, fd *ast.FuncDecl, sigClause *ast.Comm
 				cc := c.(*ast.CaseClause)
 				tmo, cancels := def, false
 				for _, bs := range cc.Body {
-					if phoutSrc(t, bs) == "gracefulShutdown()" {
+					if cliIsShutdownCall(t, fd, bs) {
 						cancels = true
 					}
 					if as, ok := bs.(*ast.AssignStmt); ok && len(as.Lhs) == 1 && len(as.Rhs) == 1 && phoutSrc(t, as.Lhs[0]) == toName {
